@@ -27,6 +27,7 @@ def run_case(case):
     obs = Obs()
     specs, driver, cf = case["frames"], case["driver"], case.get("cf", False)
     pre = case.get("pre")
+    resume = bool(case.get("resume"))
     if pre:
         # the application has already used the connection (sent data, a ping, or its own close frame) before it receives
         from ..fakesock import make_ws, split_at
@@ -41,14 +42,17 @@ def run_case(case):
             ws.ping(b"mine")
         fs.sent = bytearray()
         fs.log = []
-        events = rx.drive(ws, fs, driver, cf)
+        events = rx.drive(ws, fs, driver, cf, resume=resume)
     else:
-        events, ws, fs, frames, ends, wire = rx.run_stream(specs, case.get("cuts", []), driver, cf)
-    want, wwr = rx.expected_events(frames, ends, len(wire), driver, cf)
+        events, ws, fs, frames, ends, wire = rx.run_stream(specs, case.get("cuts", []), driver, cf, resume=resume)
+    want, wwr = rx.expected_events(frames, ends, len(wire), driver, cf, resume=resume)
     if rx.compare(obs, events, want, f"trace{'|after-' + pre if pre else ''}|{driver}"):
         rx.compare_writes(obs, fs, wwr, f"replies{'|after-' + pre if pre else ''}")
     # ordered log analysis
-    triggers = [(end, f) for f, end in zip(frames, ends) if f.opcode in (rm.PING, rm.CLOSE)]
+    rejected_idx = {w_[3] for w_ in rm.StreamModel(control_frame=cf).run(frames, resume=resume)[0] if w_[0] == "raise"}
+    first_rej = min(rejected_idx) if rejected_idx else len(frames)
+    triggers = [(end, f) for i_, (f, end) in enumerate(zip(frames, ends)) if f.opcode in (rm.PING, rm.CLOSE) and i_ not in rejected_idx
+                and (resume or i_ < first_rej)]
     consumed, ti, pending = 0, 0, None
     for ev in fs.log:
         if ev[0] == "R":
@@ -87,8 +91,8 @@ def run_case(case):
         elif f.opcode == rm.PING and inmsg:
             inside = True
     nt = len(pings) >= 2 or inside or any(len(p.payload) in (0, 125) for p in pings)
-    obs.cls = (driver, f"cf:{int(cf)}", f"pings:{min(len(pings), 6)}", f"inside_msg:{int(inside)}", f"cuts:{min(len(case.get('cuts', [])), 3)}", f"pre:{pre}")
-    obs.nt = (driver, cf, rx.shape(frames), tuple(len(p.payload) for p in pings), pre) if nt and pings else None
+    obs.cls = (driver, f"cf:{int(cf)}", f"pings:{min(len(pings), 6)}", f"inside_msg:{int(inside)}", f"cuts:{min(len(case.get('cuts', [])), 3)}", f"pre:{pre}", f"resume:{int(resume)}")
+    obs.nt = (driver, cf, rx.shape(frames), tuple(len(p.payload) for p in pings), pre, resume) if nt and pings else None
     return obs
 
 
@@ -127,7 +131,18 @@ def cases(draw):
     wire, frames, ends = rx.wire_of(specs)
     inside, seams = rx.header_offsets(frames)
     cuts = draw(rx.cutset(len(wire), inside + seams)) if draw(st.booleans()) else []
-    return {"frames": specs, "driver": driver, "cf": cf, "cuts": cuts, "pre": draw(st.sampled_from([None, None, None, "send_close", "send", "ping"]))}
+    c = {"frames": specs, "driver": driver, "cf": cf, "cuts": cuts, "pre": draw(st.sampled_from([None, None, None, "send_close", "send", "ping"]))}
+    if draw(st.integers(0, 3)) == 0:
+        # a frame the client must reject arrives somewhere; the application catches the exception and keeps receiving
+        bad = draw(st.sampled_from([{"fin": 1, "op": rm.TEXT, "rsv": 4, "p": b"x"}, {"fin": 1, "op": 3, "p": b""}, {"fin": 0, "op": rm.PING, "p": b"f"},
+                                    {"fin": 0, "op": rm.PONG, "p": b""}, {"fin": 1, "op": rm.PONG, "p": b"p" * 126}, {"fin": 1, "op": rm.CLOSE, "p": b"\x03"},
+                                    {"fin": 1, "op": rm.PING, "p": b"q" * 126}, {"fin": 1, "op": rm.CLOSE, "p": b"\x03\xed"}]))
+        limit = next((i for i, s_ in enumerate(specs) if s_["op"] == rm.CLOSE), len(specs))
+        specs.insert(draw(st.integers(0, limit)), dict(bad, key=draw(rx.keys)))
+        c["resume"] = True
+        wire, frames, ends = rx.wire_of(specs)
+        c["cuts"] = [x for x in cuts if x < len(wire)]
+    return c
 
 
 def jobs(tier, seed):
